@@ -524,6 +524,35 @@ def r13_select_send(text, log, **kw):
         if s.txt(p) == "select" and s.is_(p + 1, "!") and s.kind(p + 2) == "open":
             o = p + 2
             c = s.closer(o)
+            # futures flavour:  RES = TX.send(ITEM).fuse() => BODY1 , default => BODY2
+            if s.kind(o + 1) == "ident" and s.is_(o + 2, "="):
+                resname = s.txt(o + 1)
+                q = o + 3
+                while q < c and not s.is_(q, "=>"):
+                    if s.kind(q) == "open":
+                        q = s.closer(q)
+                    q += 1
+                fut = Src(s.slice(o + 3, q - 1))
+                sp = [k for k in range(len(fut) - 1) if fut.txt(k) == "." and fut.txt(k + 1) == "send" and fut.is_(k + 2, "(")]
+                if not sp or q >= c:
+                    raise Undecided("R13: futures select! arm shape")
+                k = sp[0]
+                tx = fut.slice(0, k - 1)
+                item = fut.slice(k + 3, fut.closer(k + 2) - 1)
+                b1 = q + 1
+                e1 = b1
+                while e1 < c and not (s.is_(e1, ",") and s.is_(e1 + 1, "default")):
+                    if s.kind(e1) == "open":
+                        e1 = s.closer(e1)
+                    e1 += 1
+                if e1 >= c or not s.is_(e1 + 2, "=>"):
+                    raise Undecided("R13: futures select! default arm expected")
+                b2 = e1 + 3
+                b2c = s.closer(b2) if s.kind(b2) == "open" else c - 1
+                repl = "match (%s).vx_select_send(%s) { SelectSend::Completed(%s) => %s, SelectSend::WouldBlock(%s) => %s }" % (
+                    tx, item, resname, s.slice(b1, e1 - 1), item, s.slice(b2, b2c))
+                log.hit("R13")
+                return text[:s.start(p)] + repl + text[s.end(c):]
             # send ( TX , ITEM ) -> RES => BODY1 , default => BODY2
             if not (s.is_(o + 1, "send") and s.is_(o + 2, "(")):
                 raise Undecided("R13: select! arm shape")
